@@ -204,7 +204,7 @@ func Close[T any](ch chan T) {
 
 // Case is one case of a select statement.
 type Case struct {
-	kind  int // 0 recv, 1 send, 2 timer, 3 default, 4 foreign recv
+	kind  int         // 0 recv, 1 send, 2 timer, 3 default, 4 foreign recv
 	raw   interface{} // the real channel (pass-through select)
 	sendv interface{}
 	dur   time.Duration
